@@ -218,6 +218,11 @@ func (q *Seq) Step(from *net.UDPAddr, d []byte, what string, decaps func(ct []by
 		sni := shadowCAck(e, sh, ck, from, d)
 		accepted := len(outs) > 0 || (hsBefore == nil && hsAfter != nil)
 		if accepted {
+			if sni == nil {
+				q.Bad = append(q.Bad, fmt.Sprintf("step %d (%s): the server answered / allocated state for a ClientAck that the specification rejects: its cookie does not open under the server's current cookie key with AD = H(ekem || source ip || source port)", q.N, what))
+				q.blind = true
+				return
+			}
 			if hsBefore != nil || hsAfter == nil {
 				q.blind = true // the new state was not stored: its ephemeral key is out of reach
 				return
